@@ -434,7 +434,7 @@ def run(an: Analysis, rep):
                                                         "refused has no decoded signature, docstring or kind at all"), "R02.R", ["from_code"], _c02.DECODER_REJECTIONS, "from_code")
     rep.run(field_rewrite_rule, an, rep, "R04.8")
     rep.run(substring_rule, an, rep, "R04.9", ["parameters", "args_len"])
-    for fn in (r041, r041_input, r041_unconditional, r042, r043, r044, r045, r046, r046_kind, r046_module_await, r047):
+    for fn in (r041, r041_input, r041_unconditional, r042, r043, r044, r045, r046, r046_kind, r046_module_await, r047, r04i):
         rep.run(fn, an, rep)
     from .common import SharedRules
     from . import c11
@@ -953,6 +953,25 @@ def fold_flag_split(an, flagset):
                 continue
             raise AnalysisError(f"{top.qual}: flag handling not evaluable for {sorted(flagset)}: {ex}")
     raise AnalysisError(f"{top.qual}: flag handling not evaluable for {sorted(flagset)}")
+
+
+def r04i(an, rep):
+    """inspect.signature renames an implicit parameter (the `.0` of a comprehension / generator expression) to `implicit0` and reports it positional-only
+    (Lib/inspect.py _signature_from_function); the decoded Args has to keep the real name to re-encode the code object, and it reports the kind the slot has."""
+    rep.rule("R04.I", "implicit parameters (`.0`) are reported as inspect.signature reports them", 1)
+    fn = find_args_decoder(an)
+    par = an.prog.function("code_data::Args.parameters")
+    handled = False
+    for f in [fn, par] + [g for g in an.closure("parameters")]:
+        for c in ast.walk(f.node):
+            if isinstance(c, ast.Call) and isinstance(c.func, ast.Attribute) and c.func.attr == "startswith" and c.args and isinstance(c.args[0], ast.Constant) and c.args[0].value == ".":
+                handled = True
+            if isinstance(c, ast.Constant) and isinstance(c.value, str) and c.value.startswith("implicit"):
+                handled = True
+    rep.add("R04.I", f"{fn.qual}::the implicit parameter `.0` of comprehension code", handled, loc(fn.module, fn.node),
+            "names that start with '.' are given inspect's treatment" if handled else
+            "every comprehension / generator-expression code object has the parameter `.0`: inspect.signature of a function built from it reports `(implicit0, /)` - renamed and positional-only - "
+            "the decoded Args reports ('.0', POSITIONAL_OR_KEYWORD); nothing in the decoder or in Args.parameters treats such names")
 
 
 def r046_many_kinds(an, rep, rule="R11.K"):
